@@ -15,6 +15,12 @@ KINDS = {
     3: {"name": "Account<Fix1> (pod, 1-byte discriminant)", "disc": [0xA5], "borsh": False, "default": [0] * 3},
 }
 E_FUNDS = 6 << 32
+# D10: create-if-needed on a foreign-owned account whose data is shorter than the discriminant panics (slice index) in the
+# shipped needs_init test.  The property's text says nothing about that target state (it is not an initialised account and
+# nothing is modified: a panic aborts the transaction like an error does), so by default it is recorded (distribution key
+# "D10 panic", theorem C12_if_needed_short_refuted) but not a violation.  Set to True to judge it inside the property;
+# proposed/C12-if-needed-short-data.patch turns it into an error either way (model flag SHORT_FIXED follows the source).
+D10_STRICT = False
 
 RULE = ("seeded random product, every axis forced: account kind {pod w=8, unsized w=8, borsh Vec w=8, pod w=1} x Create/CreateIfNeeded x "
         "{Init<Signer<_>>, Init<Seeded<_>> with Seeds, with SeedsWithBump (right / wrong bump)} x argument form {(), (&funder,), "
@@ -36,6 +42,7 @@ ASSUMPTIONS = [
     "the system program and the runtime's CPI privilege rules are an oracle (coq/Rent/Ledger.v), stated once and shared with the harness",
     "min_balance is any function into u64; create_program_address / find_program_address are oracles related by find s = (k,b) -> create (with_bump s b) = k",
     "every balance and the total supply are below 2^64; the funder is an account other than the one being created",
+    "create-if-needed on a foreign-owned account shorter than the discriminant (D10: panic in the shipped form) is outside the property's text unless D10_STRICT is set",
     "the body written by T::init / held by BorshAccount is the encoding of the initial value (C05 / C15); BorshAccount bytes are persisted at cleanup",
 ]
 
@@ -117,7 +124,7 @@ def scenario(rng):
     p["seeded"] = rng.weighted([(0, 4), (1, 4), (2, 2)])
     p["argform"] = rng.below(4)
     p["fkind"] = rng.weighted([(0, 5), (1, 3), (2, 2)])
-    p["cache"] = 1 if rng.chance(4, 5) else 0
+    p["cache"] = 1 if rng.chance(19, 20) else 0
     if p["argform"] in (1, 3) and rng.chance(1, 2):
         p["cache"] = 0
     p["lpby"] = rng.weighted([(3480, 5), (6960, 2), (1, 2), (0, 1), (10 ** 9, 1)])
@@ -183,8 +190,8 @@ def scenario(rng):
     p["target"] = dict(key=tkey, owner=owner, lamports=lam, signer=tsigner, writable=twritable, data=data)
     # funder state
     need = max(0, minb - lam)
-    fs = rng.below(20)
-    fown, fdata, flam = R.SYS, [], need + rng.choice([0, 1, 10 ** 9, 10 ** 15])
+    fs = rng.below(48)
+    fown, fdata, flam = R.SYS, [], need + rng.choice([1, 1, 10 ** 9, 10 ** 9, 10 ** 15])
     fsigner, fwritable = p["fkind"] != 1, True
     if fs == 0:
         flam = max(0, need - 1)
@@ -215,11 +222,13 @@ def d5_witness():
 
 
 def gen_cases(rng, tier):
-    cases = [("d5", build(d5_witness()))]
+    cases = []                                  # the D5 / D10 witnesses live in corpus/C12/ and run first
+    # a borsh value too large for the CPI growth limit of the simulated runtime
     p = d5_witness()
-    p["target"]["lamports"] = 974400           # the value quoted in DESIGN.md (minimum of a 12-byte account at 3480)
-    p["kind"], p["ival"] = 1, []
-    cases.append(("d5b", build(p)))
+    p["kind"], p["argform"], p["ival"] = 2, 3, [7] * 10300
+    p["target"]["lamports"] = 0
+    p["funder"]["lamports"] = 10 ** 12
+    cases.append(("big", build(p)))
     n = 3400 if tier == "quick" else 60000
     for i in range(n):
         cases.append(("r%d" % i, build(scenario(rng))))
@@ -251,6 +260,11 @@ def initialized(p):
     return t["owner"] != R.SYS and len(t["data"]) >= w and any(b != 0 for b in t["data"][:w])
 
 
+def d10_class(p):
+    w = len(KINDS[p["kind"]]["disc"])
+    return p["mode"] == 1 and p["target"]["owner"] != R.SYS and len(p["target"]["data"]) < w
+
+
 def predicate(c, obs):
     o = parse_obs(obs)
     if o is None:
@@ -260,6 +274,8 @@ def predicate(c, obs):
     w = len(k["disc"])
     t0, f0 = p["target"], p["funder"]
     if o["tag"] == 2:
+        if d10_class(p) and not D10_STRICT:
+            return None
         return "panic during Init validation (an error was expected at worst)"
     if o["tag"] != 0:
         return None if o["tag"] in (1, 3, 4) else "malformed observation"
@@ -385,6 +401,8 @@ def distribution(cases, impl):
                 cn["cpi ix=%d" % cpi["ix"]] += 1
         elif o["tag"] == 1:
             cn["err %s" % o["code"]] += 1
+        elif o["tag"] == 2 and d10_class(p):
+            cn["D10 panic (create-if-needed, foreign owner, data shorter than the discriminant)"] += 1
         else:
             cn["tag %d" % o["tag"]] += 1
     return dict(cn)
@@ -397,5 +415,5 @@ def matches_known(entry, c, obs):
     p = decode(c)
     w = len(KINDS[p["kind"]]["disc"])
     if entry.get("id") == "D10":
-        return (o["tag"] == 2 and p["mode"] == 1 and p["target"]["owner"] != R.SYS and len(p["target"]["data"]) < w)
+        return o["tag"] == 2 and d10_class(p)
     return False
